@@ -45,8 +45,8 @@ Lt(a, b)  == Cmp(a, b) < 0
 Leq(a, b) == Cmp(a, b) <= 0
 Gt(a, b)  == Cmp(a, b) > 0
 Geq(a, b) == Cmp(a, b) >= 0
-Max(a, b) == IF Geq(a, b) THEN a ELSE b
-Min(a, b) == IF Leq(a, b) THEN a ELSE b
+BN_Max(a, b) == IF Geq(a, b) THEN a ELSE b
+BN_Min(a, b) == IF Leq(a, b) THEN a ELSE b
 
 \* ---- carry propagation over a sequence of column values (each < 2^30) ---
 RECURSIVE Carry(_, _, _)
